@@ -195,6 +195,12 @@ func (a *aggregate) initializeVectorizedTables(ctx context.Context) ([]aggregate
 		return nil, nil, err
 	}
 
+	// The input series are not needed for the tables, but operators below
+	// rely on Series being called before Next to initialize themselves.
+	if _, err := a.next.Series(ctx); err != nil {
+		return nil, nil, err
+	}
+
 	return tables, []labels.Labels{{}}, nil
 }
 
